@@ -9,10 +9,15 @@ TABLES = os.path.join(os.path.dirname(os.path.dirname(os.path.abspath(__file__))
 def run(ctx):
     ctx.clause = ("in everything reachable from equality, hashing, canonicalisation and diffing a source location is "
                   "only ever copied, never compared, branched on, ordered or hashed (one listed kernel-only exception)")
-    ctx.rules = ["R-NOLOC"]
+    ctx.rules = ["R-NOLOC", "R-LOOPMEMO"]
     with open(os.path.join(TABLES, "noloc_exceptions.json")) as fh:
         exc = json.load(fh)["deciding_readers"]
     P = ctx.program(None)
     rr.check_noloc(ctx, P, exc)
+    # moving a definition to another file reorders translation units and hash maps: nothing computed for one element
+    # of a loop may be reused for the next (loop-local memoisation flags)
+    from rules import memokey_rule
+    k = memokey_rule.check_loopmemo(ctx, P, [f for f in P.all_funcs() if f.relfile.startswith("src/")])
+    ctx.note("R-LOOPMEMO: %d flag-guarded computation(s) inside loops in the library" % k)
     ctx.assume("other neutral edits (translation-unit layout, declaration order, DIE de-duplication) are runtime "
                "behaviour and are not decided")
